@@ -248,6 +248,7 @@ type Obs struct {
 	ProofPfx   []int    `json:"proof_prefix,omitempty"` // ... and in front of the derived proof
 	SigChecks  []string `json:"sig_checks,omitempty"`
 	Dump       string   `json:"dump,omitempty"`
+	ObjectLevel string  `json:"object_level,omitempty"`
 	KeyPrefixes  [][]int `json:"keyset_prefixes,omitempty"` // output prefix of every key of the keyset
 	GensDistinct int     `json:"generators_distinct"`      // 0 not observed, 1 h0, h_1..h_n pairwise distinct, 2 not
 	Details    []string `json:"details,omitempty"`
@@ -313,7 +314,7 @@ func runCaseOnce(kind string, c *Case, withCoq bool, put func(*hx.Record)) {
 	msgs := msgsOf(c.Msgs)
 	n := len(msgs)
 	nonce := nonceBytes(c.Nonce)
-	rs := sortedCopy(c.R)
+	rs := dedup(c.R)
 	revealedIDs := make([]int, len(rs))
 
 	for i, r := range rs {
@@ -500,6 +501,15 @@ func runCaseOnce(kind string, c *Case, withCoq bool, put func(*hx.Record)) {
 		fail("prefix-differs", "the derived proof does not carry the output prefix of the signing key")
 	}
 
+	if prim, ok := p.(*primParty); ok && obs.SignVerify == vAccept {
+		if f, d := objectLevel(c, prim.pub, sig, nonce); f != "" {
+			obs.ObjectLevel = f
+			fail(f, d)
+		} else {
+			obs.ObjectLevel = "ok"
+		}
+	}
+
 	vs := make([]string, len(c.Attacks))
 	pristine := append([]byte{}, proof...)
 
@@ -532,7 +542,7 @@ func runCaseOnce(kind string, c *Case, withCoq bool, put func(*hx.Record)) {
 		obs.Transcript = append(obs.Transcript, l)
 	}
 
-	rsorted := sortedCopy(c.R)
+	rsorted := dedup(c.R)
 
 	for i, a := range c.Attacks {
 		supplied := revealedIDs
@@ -729,7 +739,7 @@ func classify(c *Case, o *Obs) (string, bool, []string) {
 
 	sort.Strings(ks)
 
-	cl := fmt.Sprintf("%s%v/%d/%d n=%d R=%v nonce=%d %s", c.Level, c.Kinds, c.Primary, c.Signer, n, sortedCopy(c.R), c.Nonce, strings.Join(ks, ","))
+	cl := fmt.Sprintf("%s%v/%d/%d n=%d R=%v nonce=%d %s", c.Level, c.Kinds, c.Primary, c.Signer, n, dedup(c.R), c.Nonce, strings.Join(ks, ","))
 
 	return cl, len(c.Attacks) == 0, dist
 }
@@ -889,7 +899,7 @@ func coqCase(c *Case, o *Obs, proof []byte) string {
 // ---------- generators ----------
 
 func revealedIDs(c *Case) []int {
-	rs := sortedCopy(c.R)
+	rs := dedup(c.R)
 	out := make([]int, len(rs))
 
 	for i, r := range rs {
@@ -961,7 +971,7 @@ func listAttacks(c *Case, r *hx.Rng) []Attack {
 // and without padding bits in the payload; re-encodings of the honest proof.
 func forgeAttacks(c *Case, r *hx.Rng) ([]Attack, []TrSpec) {
 	n := len(c.Msgs)
-	rs := sortedCopy(c.R)
+	rs := dedup(c.R)
 	rv := revealedIDs(c)
 	spare := 8*(n/8+1) - n
 	pad1 := []int{n + r.Intn(spare)}
@@ -1243,6 +1253,40 @@ func randomMsgs(r *hx.Rng, n int) []int {
 	return ids
 }
 
+// revealList turns a reveal set into a list as callers pass it: random order, sometimes naming an index twice or more
+// (two requirement lists concatenated).
+func revealList(r *hx.Rng, set []int, n int) []int {
+	l := append([]int{}, set...)
+
+	switch r.Intn(3) {
+	case 0:
+		for k := 1 + r.Intn(3); k > 0; k-- {
+			l = append(l, set[r.Intn(len(set))])
+		}
+	case 1:
+		l = append(l, set...) // the same list twice
+	}
+
+	// NewPoKOfSignature refuses a list LONGER than the message vector even if it only repeats indexes (it compares the
+	// list length, not the number of distinct indexes, with the message count): keep to what it accepts
+	if len(l) > n {
+		l = l[:len(set)]
+	}
+
+	return shuffled(r, l)
+}
+
+func maxIndex(a []int) int {
+	m := 0
+	for _, x := range a {
+		if x > m {
+			m = x
+		}
+	}
+
+	return m
+}
+
 func shuffled(r *hx.Rng, a []int) []int {
 	b := append([]int{}, a...)
 	for i := len(b) - 1; i > 0; i-- {
@@ -1389,7 +1433,7 @@ func main() {
 			lvl = "tink"
 		}
 
-		c := &Case{Level: lvl, Msgs: randomMsgs(r, n), R: shuffled(r, randomSubset(r, n)), Nonce: r.Intn(4), Key: r.Intn(3)}
+		c := &Case{Level: lvl, Msgs: randomMsgs(r, n), R: revealList(r, randomSubset(r, n), n), Nonce: r.Intn(4), Key: r.Intn(3)}
 		c.Attacks = listAttacks(c, r)
 		runCase("random", c, tr)
 	}
@@ -1456,7 +1500,7 @@ func main() {
 			}
 
 			c := &Case{Level: "tinkp", Kinds: sh.kinds, Primary: sh.primary, Signer: sh.signer, Msgs: randomMsgs(r, n),
-				R: shuffled(r, randomSubset(r, n)), Nonce: r.Intn(4), Key: r.Intn(2)}
+				R: revealList(r, randomSubset(r, n), n), Nonce: r.Intn(4), Key: r.Intn(2)}
 			c.Attacks = listAttacks(c, r)
 
 			if signerKind(c) != "RAW" {
@@ -1498,7 +1542,7 @@ func main() {
 		c.R = dedup(inRange)
 		c.Attacks = listAttacks(c, r)
 		rv := revealedIDs(c)
-		rs := sortedCopy(c.R)
+		rs := dedup(c.R)
 
 		for x := 0; x < len(rs); x++ {
 			for y := x + 1; y < len(rs); y++ {
